@@ -58,6 +58,7 @@ def _check(ctx: Ctx) -> None:
 
     # --- DUR + PROV
     nvals = fi.params[1]
+    chosen_lists: set = set()
     for w in ws:
         if w.attr != "time":
             continue
@@ -92,6 +93,8 @@ def _check(ctx: Ctx) -> None:
             import re
             mm = re.match(r"^(\w+)\[", chosen)
             lst = mm.group(1) if mm else None
+            if lst:
+                chosen_lists.add(lst)
             ok = False
             why = f"chosen value `{chosen}`"
             if lst:
@@ -113,9 +116,13 @@ def _check(ctx: Ctx) -> None:
             and any(isinstance(t, ast.Subscript) for t in n.targets)]
     for e in empt:
         g = getattr(e, "_parent", None)
-        ok = isinstance(g, ast.If) and e in g.body and isinstance(g.test, ast.Compare) and "len(" in src(g.test) \
-            and isinstance(g.test.comparators[0], ast.Constant) and g.test.comparators[0].value == 0 and isinstance(g.test.ops[0], ast.Eq)
-        ok = ok or (isinstance(g, ast.If) and e in g.body and isinstance(g.test, ast.UnaryOp) and isinstance(g.test.op, ast.Not))
+        ok = False
+        if isinstance(g, ast.If):
+            # the sole guard says `the list of admissible durations is empty`, in whichever spelling and branch
+            from ..astutil import emptiness_test
+            et = emptiness_test(g.test)
+            ok = et is not None and ((e in g.body and et[1] is True) or (e in g.orelse and et[1] is False)) \
+                and (not chosen_lists or et[0] in chosen_lists)
         ctx.check(ok, "KEEP", f"{FN}: a note is removed only when no allowed duration is left", function=FN,
                   construct="note removed under a condition other than `no allowed duration fits`",
                   message=f"`{short(g.test) if isinstance(g, ast.If) else '?'}`", file=fi.file, node=e)
